@@ -111,6 +111,7 @@ void _ZSt24__throw_invalid_argumentPKc(void* m) { vx_throw_std(TI_INVARG); }
 
 /* ---- bounded byte helpers ---- */
 #define VX_SSO 15
+_Bool vx_truncated = 0;
 /* instances built with short_strings (the default) never need the heap path of the string model: reaching it is a
  * loud harness error ("model bound"), and symbolic execution does not have to walk its loops */
 #ifdef VX_SHORT_ONLY
@@ -125,15 +126,17 @@ void _ZSt24__throw_invalid_argumentPKc(void* m) { vx_throw_std(TI_INVARG); }
 #endif
 /* every loop below is constant-trip (16) unless named *_long */
 static void vx_cpy_long(char* d, const char* s, uint64_t n) { for (uint64_t i = 0; i < n; ++i) d[i] = s[i]; }
+static uint64_t vx_strlen_long(const char* s) { uint64_t n = 16; while (s[n]) ++n; return n; }
 uint64_t vx_strlen(const char* s) {
   for (int i = 0; i < 16; ++i) if (s[i] == 0) return (uint64_t)i;
+#ifdef VX_TRUNC
+  vx_truncated = 1; return 15;
+#endif
   VX_LONG(16);
 #ifdef VX_SHORT_ONLY
   return 16;
 #else
-  uint64_t n = 16;
-  while (s[n]) ++n;           /* long path: vx_strlen.1 */
-  return n;
+  return vx_strlen_long(s);
 #endif
 }
 uint64_t strlen(const char* s) { return vx_strlen(s); }
@@ -175,15 +178,27 @@ char* strrchr(const char* s, int c) {
 
 /* ---- std::string (libstdc++ cxx11 ABI layout, SSO honoured) ---- */
 struct vx_str { char* p; uint64_t len; union { char local[16]; uint64_t cap; } u; };
+/* data pointer: in short-string instances every string lives in its own SSO buffer, so the model never goes through
+ * the stored pointer (keeps CBMC's pointer analysis precise for strings inside containers) */
+#ifdef VX_SHORT_ONLY
+#define DP(x) ((x)->u.local)
+#else
+#define DP(x) ((x)->p)
+#endif
 #define S(x) ((struct vx_str*)(x))
 #define NPOS 0xffffffffffffffffUL
-static uint64_t vx_str_cap(struct vx_str* s) { return s->p == s->u.local ? 15 : s->u.cap; }
+static uint64_t vx_str_cap(struct vx_str* s) { return DP(s) == s->u.local ? 15 : s->u.cap; }
 static void vx_str_init(struct vx_str* s, const char* src, uint64_t n) {
+#ifdef VX_TRUNC
+  /* instances built with truncate_long: a string constructed from more than 15 bytes keeps its first 15 (only
+   * error-message texts are that long in those kernels; the flag lets a harness assert it did not happen) */
+  if (n > VX_SSO) { n = VX_SSO; vx_truncated = 1; }
+#endif
   VX_LONG(n);
 #ifndef VX_SHORT_ONLY
   if (n > VX_SSO) {
-    s->p = (char*)malloc(n + 1); __CPROVER_assume(s->p != 0); s->u.cap = n;
-    vx_cpy_long(s->p, src, n); s->p[n] = 0; s->len = n; return;
+    s->p = (char*)malloc(n + 1); __CPROVER_assume(DP(s) != 0); s->u.cap = n;
+    vx_cpy_long(DP(s), src, n); DP(s)[n] = 0; s->len = n; return;
   }
 #endif
   s->p = s->u.local;
@@ -195,9 +210,9 @@ static void vx_splice(struct vx_str* s, uint64_t pos, uint64_t del, const char* 
   uint64_t old = s->len, nl = old - del + m;
   VX_LONG(nl);
 #ifdef VX_SHORT_ONLY
-  __CPROVER_assume(s->p == s->u.local);
+  __CPROVER_assume(DP(s) == s->u.local);
 #endif
-  if (s->p == s->u.local && nl <= VX_SSO) {
+  if (DP(s) == s->u.local && nl <= VX_SSO) {
     char t[16];
     for (int i = 0; i < 16; ++i) {
       uint64_t k = (uint64_t)i;
@@ -212,11 +227,11 @@ static void vx_splice(struct vx_str* s, uint64_t pos, uint64_t del, const char* 
   /* long path */
   uint64_t cap = vx_str_cap(s), nc = nl <= cap ? cap : (nl < 2 * cap ? 2 * cap : nl);
   char* np = (char*)malloc(nc + 1); __CPROVER_assume(np != 0);
-  vx_cpy_long(np, s->p, pos);
+  vx_cpy_long(np, DP(s), pos);
   vx_cpy_long(np + pos, ins, m);
-  vx_cpy_long(np + pos + m, s->p + pos + del, old - pos - del);
+  vx_cpy_long(np + pos + m, DP(s) + pos + del, old - pos - del);
   np[nl] = 0;
-  if (s->p != s->u.local) free(s->p);
+  if (DP(s) != s->u.local) free(DP(s));
   s->p = np; s->u.cap = nc; s->len = nl;
 }
 static void vx_str_set(struct vx_str* s, const char* src, uint64_t n) { vx_splice(s, 0, s->len, src, n); }
@@ -235,17 +250,17 @@ void _ZNSt7__cxx1112basic_stringIcSt11char_traitsIcESaIcEEC1EPKcRKS3_(void* s, v
 void _ZNSt7__cxx1112basic_stringIcSt11char_traitsIcESaIcEEC2EPKcRKS3_(void* s, void* c, void* a) { vx_str_init(S(s), (const char*)c, vx_strlen((const char*)c)); }
 void _ZNSt7__cxx1112basic_stringIcSt11char_traitsIcESaIcEEC1EPKcmRKS3_(void* s, void* c, uint64_t n, void* a) { vx_str_init(S(s), (const char*)c, n); }
 void _ZNSt7__cxx1112basic_stringIcSt11char_traitsIcESaIcEEC2EPKcmRKS3_(void* s, void* c, uint64_t n, void* a) { vx_str_init(S(s), (const char*)c, n); }
-void _ZNSt7__cxx1112basic_stringIcSt11char_traitsIcESaIcEEC1ERKS4_(void* s, void* o) { vx_str_init(S(s), S(o)->p, S(o)->len); }
-void _ZNSt7__cxx1112basic_stringIcSt11char_traitsIcESaIcEEC2ERKS4_(void* s, void* o) { vx_str_init(S(s), S(o)->p, S(o)->len); }
+void _ZNSt7__cxx1112basic_stringIcSt11char_traitsIcESaIcEEC1ERKS4_(void* s, void* o) { vx_str_init(S(s), DP(S(o)), S(o)->len); }
+void _ZNSt7__cxx1112basic_stringIcSt11char_traitsIcESaIcEEC2ERKS4_(void* s, void* o) { vx_str_init(S(s), DP(S(o)), S(o)->len); }
 static void vx_str_move(struct vx_str* s, struct vx_str* o) {
 #ifdef VX_SHORT_ONLY
-  __CPROVER_assume(o->p == o->u.local);
+  __CPROVER_assume(DP(o) == o->u.local);
 #endif
 #ifdef VX_SHORT_ONLY
   { s->p = s->u.local; for (int i = 0; i < 16; ++i) s->u.local[i] = o->u.local[i]; s->len = o->len; }
 #else
-  if (o->p == o->u.local) { s->p = s->u.local; for (int i = 0; i < 16; ++i) s->u.local[i] = o->u.local[i]; s->len = o->len; }
-  else { s->p = o->p; s->len = o->len; s->u.cap = o->u.cap; o->p = o->u.local; }
+  if (DP(o) == o->u.local) { s->p = s->u.local; for (int i = 0; i < 16; ++i) s->u.local[i] = o->u.local[i]; s->len = o->len; }
+  else { s->p = DP(o); s->len = o->len; s->u.cap = o->u.cap; o->p = o->u.local; }
 #endif
   o->len = 0; o->u.local[0] = 0;
 }
@@ -257,30 +272,30 @@ void _ZNSt7__cxx1112basic_stringIcSt11char_traitsIcESaIcEEC2EmcRKS3_(void* s, ui
 void _ZNSt7__cxx1112basic_stringIcSt11char_traitsIcESaIcEED1Ev(void* s) { }
 void _ZNSt7__cxx1112basic_stringIcSt11char_traitsIcESaIcEED2Ev(void* s) { }
 #else
-void _ZNSt7__cxx1112basic_stringIcSt11char_traitsIcESaIcEED1Ev(void* s) { if (S(s)->p != S(s)->u.local) free(S(s)->p); }
-void _ZNSt7__cxx1112basic_stringIcSt11char_traitsIcESaIcEED2Ev(void* s) { if (S(s)->p != S(s)->u.local) free(S(s)->p); }
+void _ZNSt7__cxx1112basic_stringIcSt11char_traitsIcESaIcEED1Ev(void* s) { if (DP(S(s)) != S(s)->u.local) free(DP(S(s))); }
+void _ZNSt7__cxx1112basic_stringIcSt11char_traitsIcESaIcEED2Ev(void* s) { if (DP(S(s)) != S(s)->u.local) free(DP(S(s))); }
 #endif
-void* _ZNKSt7__cxx1112basic_stringIcSt11char_traitsIcESaIcEE5c_strEv(void* s) { return S(s)->p; }
-void* _ZNKSt7__cxx1112basic_stringIcSt11char_traitsIcESaIcEE4dataEv(void* s) { return S(s)->p; }
+void* _ZNKSt7__cxx1112basic_stringIcSt11char_traitsIcESaIcEE5c_strEv(void* s) { return DP(S(s)); }
+void* _ZNKSt7__cxx1112basic_stringIcSt11char_traitsIcESaIcEE4dataEv(void* s) { return DP(S(s)); }
 uint64_t _ZNKSt7__cxx1112basic_stringIcSt11char_traitsIcESaIcEE4sizeEv(void* s) { return S(s)->len; }
 uint64_t _ZNKSt7__cxx1112basic_stringIcSt11char_traitsIcESaIcEE6lengthEv(void* s) { return S(s)->len; }
 _Bool _ZNKSt7__cxx1112basic_stringIcSt11char_traitsIcESaIcEE5emptyEv(void* s) { return S(s)->len == 0; }
-void* _ZNKSt7__cxx1112basic_stringIcSt11char_traitsIcESaIcEE3endEv(void* s) { return S(s)->p + S(s)->len; }
-void* _ZNSt7__cxx1112basic_stringIcSt11char_traitsIcESaIcEE3endEv(void* s) { return S(s)->p + S(s)->len; }
-void* _ZNKSt7__cxx1112basic_stringIcSt11char_traitsIcESaIcEE5beginEv(void* s) { return S(s)->p; }
-void* _ZNSt7__cxx1112basic_stringIcSt11char_traitsIcESaIcEE5beginEv(void* s) { return S(s)->p; }
-void* _ZNKSt7__cxx1112basic_stringIcSt11char_traitsIcESaIcEE5frontEv(void* s) { return S(s)->p; }
-void* _ZNSt7__cxx1112basic_stringIcSt11char_traitsIcESaIcEE4backEv(void* s) { return S(s)->p + (S(s)->len - 1); }
-void* _ZNSt7__cxx1112basic_stringIcSt11char_traitsIcESaIcEEixEm(void* s, uint64_t i) { __CPROVER_assert(i <= S(s)->len, "C01: std::string operator[] index within [0, size]"); return S(s)->p + i; }
-void* _ZNKSt7__cxx1112basic_stringIcSt11char_traitsIcESaIcEEixEm(void* s, uint64_t i) { __CPROVER_assert(i <= S(s)->len, "C01: std::string operator[] index within [0, size]"); return S(s)->p + i; }
-void* _ZNSt7__cxx1112basic_stringIcSt11char_traitsIcESaIcEE2atEm(void* s, uint64_t i) { if (i >= S(s)->len) { vx_throw_std(TI_OOR); return S(s)->p; } return S(s)->p + i; }
-void _ZNSt7__cxx1112basic_stringIcSt11char_traitsIcESaIcEE5clearEv(void* s) { S(s)->len = 0; S(s)->p[0] = 0; }
+void* _ZNKSt7__cxx1112basic_stringIcSt11char_traitsIcESaIcEE3endEv(void* s) { return DP(S(s)) + S(s)->len; }
+void* _ZNSt7__cxx1112basic_stringIcSt11char_traitsIcESaIcEE3endEv(void* s) { return DP(S(s)) + S(s)->len; }
+void* _ZNKSt7__cxx1112basic_stringIcSt11char_traitsIcESaIcEE5beginEv(void* s) { return DP(S(s)); }
+void* _ZNSt7__cxx1112basic_stringIcSt11char_traitsIcESaIcEE5beginEv(void* s) { return DP(S(s)); }
+void* _ZNKSt7__cxx1112basic_stringIcSt11char_traitsIcESaIcEE5frontEv(void* s) { return DP(S(s)); }
+void* _ZNSt7__cxx1112basic_stringIcSt11char_traitsIcESaIcEE4backEv(void* s) { return DP(S(s)) + (S(s)->len - 1); }
+void* _ZNSt7__cxx1112basic_stringIcSt11char_traitsIcESaIcEEixEm(void* s, uint64_t i) { __CPROVER_assert(i <= S(s)->len, "C01: std::string operator[] index within [0, size]"); return DP(S(s)) + i; }
+void* _ZNKSt7__cxx1112basic_stringIcSt11char_traitsIcESaIcEEixEm(void* s, uint64_t i) { __CPROVER_assert(i <= S(s)->len, "C01: std::string operator[] index within [0, size]"); return DP(S(s)) + i; }
+void* _ZNSt7__cxx1112basic_stringIcSt11char_traitsIcESaIcEE2atEm(void* s, uint64_t i) { if (i >= S(s)->len) { vx_throw_std(TI_OOR); return DP(S(s)); } return DP(S(s)) + i; }
+void _ZNSt7__cxx1112basic_stringIcSt11char_traitsIcESaIcEE5clearEv(void* s) { S(s)->len = 0; DP(S(s))[0] = 0; }
 void _ZNSt7__cxx1112basic_stringIcSt11char_traitsIcESaIcEE7reserveEm(void* s, uint64_t n) {
   if (n <= vx_str_cap(S(s))) return;
   VX_LONG(n);
   char* np = (char*)malloc(n + 1); __CPROVER_assume(np != 0);
-  if (S(s)->len <= 15) { for (int i = 0; i < 16; ++i) np[i] = ((uint64_t)i <= S(s)->len) ? S(s)->p[i] : 0; } else { VX_NOLONG(); vx_cpy_long(np, S(s)->p, S(s)->len + 1); }
-  if (S(s)->p != S(s)->u.local) free(S(s)->p);
+  if (S(s)->len <= 15) { for (int i = 0; i < 16; ++i) np[i] = ((uint64_t)i <= S(s)->len) ? DP(S(s))[i] : 0; } else { VX_NOLONG(); vx_cpy_long(np, DP(S(s)), S(s)->len + 1); }
+  if (DP(S(s)) != S(s)->u.local) free(DP(S(s)));
   S(s)->p = np; S(s)->u.cap = n;
 }
 void _ZNSt7__cxx1112basic_stringIcSt11char_traitsIcESaIcEE6resizeEm(void* s, uint64_t n) { if (n < S(s)->len) vx_splice(S(s), n, S(s)->len - n, "", 0); else vx_str_fill(S(s), S(s)->len, 0, n - S(s)->len, 0); }
@@ -289,40 +304,40 @@ void _ZNSt7__cxx1112basic_stringIcSt11char_traitsIcESaIcEE8pop_backEv(void* s) {
 void* _ZNSt7__cxx1112basic_stringIcSt11char_traitsIcESaIcEEpLEc(void* s, uint8_t c) { char ch = (char)c; vx_str_append(S(s), &ch, 1); return s; }
 void* _ZNSt7__cxx1112basic_stringIcSt11char_traitsIcESaIcEE6appendEPKc(void* s, void* c) { vx_str_append(S(s), (const char*)c, vx_strlen((const char*)c)); return s; }
 void* _ZNSt7__cxx1112basic_stringIcSt11char_traitsIcESaIcEE6appendEPKcm(void* s, void* c, uint64_t n) { vx_str_append(S(s), (const char*)c, n); return s; }
-void* _ZNSt7__cxx1112basic_stringIcSt11char_traitsIcESaIcEE6appendERKS4_(void* s, void* o) { vx_str_append(S(s), S(o)->p, S(o)->len); return s; }
+void* _ZNSt7__cxx1112basic_stringIcSt11char_traitsIcESaIcEE6appendERKS4_(void* s, void* o) { vx_str_append(S(s), DP(S(o)), S(o)->len); return s; }
 void* _ZNSt7__cxx1112basic_stringIcSt11char_traitsIcESaIcEE6appendERKS4_mm(void* s, void* o, uint64_t pos, uint64_t n) {
   if (pos > S(o)->len) { vx_throw_std(TI_OOR); return s; }
   uint64_t rl = S(o)->len - pos; if (n < rl) rl = n;
-  vx_str_append(S(s), S(o)->p + pos, rl); return s; }
+  vx_str_append(S(s), DP(S(o)) + pos, rl); return s; }
 void* _ZNSt7__cxx1112basic_stringIcSt11char_traitsIcESaIcEE6appendEmc(void* s, uint64_t n, uint8_t c) { vx_str_fill(S(s), S(s)->len, 0, n, (char)c); return s; }
-void* _ZNSt7__cxx1112basic_stringIcSt11char_traitsIcESaIcEE6assignERKS4_(void* s, void* o) { if (s != o) vx_str_set(S(s), S(o)->p, S(o)->len); return s; }
+void* _ZNSt7__cxx1112basic_stringIcSt11char_traitsIcESaIcEE6assignERKS4_(void* s, void* o) { if (s != o) vx_str_set(S(s), DP(S(o)), S(o)->len); return s; }
 void* _ZNSt7__cxx1112basic_stringIcSt11char_traitsIcESaIcEE6assignEPKc(void* s, void* c) { vx_str_set(S(s), (const char*)c, vx_strlen((const char*)c)); return s; }
 void* _ZNSt7__cxx1112basic_stringIcSt11char_traitsIcESaIcEE6assignEPKcm(void* s, void* c, uint64_t n) { vx_str_set(S(s), (const char*)c, n); return s; }
 void* _ZNSt7__cxx1112basic_stringIcSt11char_traitsIcESaIcEE6assignEmc(void* s, uint64_t n, uint8_t c) { vx_str_fill(S(s), 0, S(s)->len, n, (char)c); return s; }
 static void* vx_str_massign(void* s, void* o) {
   if (s == o) return s;
-  if (S(s)->p != S(s)->u.local) free(S(s)->p);
+  if (DP(S(s)) != S(s)->u.local) free(DP(S(s)));
   vx_str_move(S(s), S(o)); return s; }
 void* _ZNSt7__cxx1112basic_stringIcSt11char_traitsIcESaIcEE6assignEOS4_(void* s, void* o) { return vx_str_massign(s, o); }
 void* _ZNSt7__cxx1112basic_stringIcSt11char_traitsIcESaIcEEaSEOS4_(void* s, void* o) { return vx_str_massign(s, o); }
 void* _ZNSt7__cxx1112basic_stringIcSt11char_traitsIcESaIcEEaSEPKc(void* s, void* c) { vx_str_set(S(s), (const char*)c, vx_strlen((const char*)c)); return s; }
-void* _ZNSt7__cxx1112basic_stringIcSt11char_traitsIcESaIcEEaSERKS4_(void* s, void* o) { if (s != o) vx_str_set(S(s), S(o)->p, S(o)->len); return s; }
+void* _ZNSt7__cxx1112basic_stringIcSt11char_traitsIcESaIcEEaSERKS4_(void* s, void* o) { if (s != o) vx_str_set(S(s), DP(S(o)), S(o)->len); return s; }
 static int vx_str_cmp(const char* a, uint64_t la, const char* b, uint64_t lb) {
   uint64_t m = la < lb ? la : lb;
   int r = vx_memcmp((const unsigned char*)a, (const unsigned char*)b, m);
   return r ? r : (la < lb ? -1 : la > lb ? 1 : 0);
 }
-int _ZNKSt7__cxx1112basic_stringIcSt11char_traitsIcESaIcEE7compareEPKc(void* s, void* c) { return vx_str_cmp(S(s)->p, S(s)->len, (const char*)c, vx_strlen((const char*)c)); }
-int _ZNKSt7__cxx1112basic_stringIcSt11char_traitsIcESaIcEE7compareERKS4_(void* s, void* o) { return vx_str_cmp(S(s)->p, S(s)->len, S(o)->p, S(o)->len); }
+int _ZNKSt7__cxx1112basic_stringIcSt11char_traitsIcESaIcEE7compareEPKc(void* s, void* c) { return vx_str_cmp(DP(S(s)), S(s)->len, (const char*)c, vx_strlen((const char*)c)); }
+int _ZNKSt7__cxx1112basic_stringIcSt11char_traitsIcESaIcEE7compareERKS4_(void* s, void* o) { return vx_str_cmp(DP(S(s)), S(s)->len, DP(S(o)), S(o)->len); }
 int _ZNKSt7__cxx1112basic_stringIcSt11char_traitsIcESaIcEE7compareEmmRKS4_(void* s, uint64_t pos, uint64_t n, void* o) {
   if (pos > S(s)->len) { vx_throw_std(TI_OOR); return 0; }
   uint64_t rl = S(s)->len - pos; if (n < rl) rl = n;
-  return vx_str_cmp(S(s)->p + pos, rl, S(o)->p, S(o)->len); }
+  return vx_str_cmp(DP(S(s)) + pos, rl, DP(S(o)), S(o)->len); }
 /* substr: sret pointer first, then this, pos, n */
 void _ZNKSt7__cxx1112basic_stringIcSt11char_traitsIcESaIcEE6substrEmm(void* ret, void* s, uint64_t pos, uint64_t n) {
   if (pos > S(s)->len) { vx_throw_std(TI_OOR); return; }
   uint64_t rl = S(s)->len - pos; if (n < rl) rl = n;
-  vx_str_init(S(ret), S(s)->p + pos, rl);
+  vx_str_init(S(ret), DP(S(s)) + pos, rl);
 }
 void* _ZNSt7__cxx1112basic_stringIcSt11char_traitsIcESaIcEE7replaceEmmmc(void* s, uint64_t pos, uint64_t n1, uint64_t n2, uint8_t c) {
   if (pos > S(s)->len) { vx_throw_std(TI_OOR); return s; }
@@ -333,17 +348,17 @@ void* _ZNSt7__cxx1112basic_stringIcSt11char_traitsIcESaIcEE6insertEmmc(void* s, 
   vx_str_fill(S(s), pos, 0, n, (char)c); return s; }
 void* _ZNSt7__cxx1112basic_stringIcSt11char_traitsIcESaIcEE6insertEmRKS4_(void* s, uint64_t pos, void* o) {
   if (pos > S(s)->len) { vx_throw_std(TI_OOR); return s; }
-  if (S(o)->len <= 16) { char t[16]; for (int i = 0; i < 16; ++i) t[i] = (uint64_t)i < S(o)->len ? S(o)->p[i] : 0; vx_splice(S(s), pos, 0, t, S(o)->len); }
-  else { VX_NOLONG(s); vx_splice(S(s), pos, 0, S(o)->p, S(o)->len); }
+  if (S(o)->len <= 16) { char t[16]; for (int i = 0; i < 16; ++i) t[i] = (uint64_t)i < S(o)->len ? DP(S(o))[i] : 0; vx_splice(S(s), pos, 0, t, S(o)->len); }
+  else { VX_NOLONG(s); vx_splice(S(s), pos, 0, DP(S(o)), S(o)->len); }
   return s; }
 void* _ZNSt7__cxx1112basic_stringIcSt11char_traitsIcESaIcEE5eraseEN9__gnu_cxx17__normal_iteratorIPKcS4_EE(void* s, void* it) {
-  uint64_t pos = (uint64_t)((char*)it - S(s)->p);
-  vx_splice(S(s), pos, 1, "", 0); return S(s)->p + pos; }
+  uint64_t pos = (uint64_t)((char*)it - DP(S(s)));
+  vx_splice(S(s), pos, 1, "", 0); return DP(S(s)) + pos; }
 uint64_t _ZNKSt7__cxx1112basic_stringIcSt11char_traitsIcESaIcEE4findEcm(void* s, uint8_t c, uint64_t pos) {
   uint64_t n = S(s)->len;
-  if (n <= 16) { uint64_t r = NPOS; for (int i = 15; i >= 0; --i) if ((uint64_t)i >= pos && (uint64_t)i < n && S(s)->p[i] == (char)c) r = (uint64_t)i; return r; }
+  if (n <= 16) { uint64_t r = NPOS; for (int i = 15; i >= 0; --i) if ((uint64_t)i >= pos && (uint64_t)i < n && DP(S(s))[i] == (char)c) r = (uint64_t)i; return r; }
   VX_NOLONG(NPOS);
-  for (uint64_t i = pos; i < n; ++i) if (S(s)->p[i] == (char)c) return i;
+  for (uint64_t i = pos; i < n; ++i) if (DP(S(s))[i] == (char)c) return i;
   return NPOS; }
 static uint64_t vx_str_find(struct vx_str* s, const char* q, uint64_t m, uint64_t pos) {
   uint64_t n = s->len;
@@ -359,13 +374,13 @@ static uint64_t vx_str_find(struct vx_str* s, const char* q, uint64_t m, uint64_
   VX_NOLONG(NPOS);
   for (uint64_t i = pos; i + m <= n; ++i) if (vx_memcmp((const unsigned char*)s->p + i, (const unsigned char*)q, m) == 0) return i;
   return NPOS; }
-uint64_t _ZNKSt7__cxx1112basic_stringIcSt11char_traitsIcESaIcEE4findERKS4_m(void* s, void* o, uint64_t pos) { return vx_str_find(S(s), S(o)->p, S(o)->len, pos); }
+uint64_t _ZNKSt7__cxx1112basic_stringIcSt11char_traitsIcESaIcEE4findERKS4_m(void* s, void* o, uint64_t pos) { return vx_str_find(S(s), DP(S(o)), S(o)->len, pos); }
 uint64_t _ZNKSt7__cxx1112basic_stringIcSt11char_traitsIcESaIcEE4findEPKcm(void* s, void* c, uint64_t pos) { return vx_str_find(S(s), (const char*)c, vx_strlen((const char*)c), pos); }
 uint64_t _ZNKSt7__cxx1112basic_stringIcSt11char_traitsIcESaIcEE12find_last_ofEcm(void* s, uint8_t c, uint64_t pos) {
   uint64_t n = S(s)->len; if (n == 0) return NPOS; if (pos >= n) pos = n - 1;
-  if (n <= 16) { uint64_t r = NPOS; for (int i = 0; i < 16; ++i) if ((uint64_t)i <= pos && S(s)->p[i] == (char)c) r = (uint64_t)i; return r; }
+  if (n <= 16) { uint64_t r = NPOS; for (int i = 0; i < 16; ++i) if ((uint64_t)i <= pos && DP(S(s))[i] == (char)c) r = (uint64_t)i; return r; }
   VX_NOLONG(NPOS);
-  for (uint64_t i = pos + 1; i > 0; --i) if (S(s)->p[i - 1] == (char)c) return i - 1;
+  for (uint64_t i = pos + 1; i > 0; --i) if (DP(S(s))[i - 1] == (char)c) return i - 1;
   return NPOS; }
 void _ZNSaIcEC1Ev(void* a) { }
 void _ZNSaIcED1Ev(void* a) { }
@@ -452,6 +467,9 @@ void _ZNK4bloc4Type8typeNameERKNSt7__cxx1112basic_stringIcSt11char_traitsIcESaIc
 void _ZNK4bloc5Value8toStringB5cxx11Ev(void* ret, void* self) { vx_str_init(S(ret), "", 0); }
 void _ZNK4bloc5Value8typeNameB5cxx11Ev(void* ret, void* self) { vx_str_init(S(ret), "", 0); }
 void _ZNK4bloc9TupleDecl4Decl9tupleNameB5cxx11Ev(void* ret, void* self) { vx_str_init(S(ret), "", 0); }
+
+void _ZN4bloc3DBGEiPKcz(int level, void* fmt, ...) { }      /* bloc::DBG: debug logging, no effect on any property */
+void _ZN4bloc8DBGLevelEi(int level) { }
 
 /* ---- strto* : exact models for digit strings of up to 20 characters ---- */
 static int vx_digit(char c, int base) {
